@@ -80,6 +80,8 @@ func (fx *FnCtx) execCall(st *State, pc *Term, site ssa.Instruction, call *ssa.C
 			return fx.binaryRead(st, pc, call, rt)
 		} else if pkg == "sort" && (name == "Sort" || name == "IsSorted" || name == "Stable") {
 			return fx.sortModel(st, pc, name, call, rt)
+		} else if pkg == "sort" && name == "Search" {
+			return fx.sortSearch(st, pc, call, rt)
 		}
 		var args []Value
 		for _, a := range call.Args {
@@ -976,6 +978,9 @@ func (fx *FnCtx) calleeMods(f *ssa.Function, ms *modSet, call *ssa.CallCommon, d
 		}
 		return
 	}
+	if pkg == "sort" && name == "Search" {
+		return // the predicate is evaluated on a copy of the state (see sortSearch)
+	}
 	if fc != nil && !fc.Inline {
 		fx.contractMods(fc, ms, call)
 		return
@@ -1091,7 +1096,12 @@ func (fx *FnCtx) contractMods(fc *FuncContract, ms *modSet, call *ssa.CallCommon
 		case *types.Map:
 			fx.addMapHeaps(ms, pt)
 		case *types.Pointer:
-			if _, ok := e.(*SSlice); ok {
+			if sl, ok := e.(*SSlice); ok {
+				// p.f[lo:hi]: elements of the arrays of that element type
+				if st, ok := specStaticType(sl.X, root, pt).(*types.Slice); ok {
+					fx.addArrHeaps(ms, st.Elem())
+					continue
+				}
 				ms.all = true
 				ms.why = "modifies through nested slice"
 				return
@@ -1120,6 +1130,40 @@ func (fx *FnCtx) contractMods(fc *FuncContract, ms *modSet, call *ssa.CallCommon
 			return
 		}
 	}
+}
+
+// specStaticType is the (underlying) Go type of a path expression over the parameter root of type rt:
+// fields through pointers and structs, indexing of slices and arrays; nil when it cannot be told.
+func specStaticType(e SpecExpr, root string, rt types.Type) types.Type {
+	switch x := e.(type) {
+	case *SIdent:
+		if x.Name == root {
+			return rt.Underlying()
+		}
+	case *SField:
+		t := specStaticType(x.X, root, rt)
+		if t == nil {
+			return nil
+		}
+		if p, ok := t.(*types.Pointer); ok {
+			t = p.Elem().Underlying()
+		}
+		if st, ok := t.(*types.Struct); ok {
+			for i := 0; i < st.NumFields(); i++ {
+				if st.Field(i).Name() == x.Name {
+					return st.Field(i).Type().Underlying()
+				}
+			}
+		}
+	case *SIndex:
+		switch t := specStaticType(x.X, root, rt).(type) {
+		case *types.Slice:
+			return t.Elem().Underlying()
+		case *types.Array:
+			return t.Elem().Underlying()
+		}
+	}
+	return nil
 }
 
 func specRootIdent(e SpecExpr) string {
@@ -1395,9 +1439,38 @@ func (fx *FnCtx) sortModel(st *State, pc *Term, name string, call *ssa.CallCommo
 	tc := fx.tc
 	lo, hi := x.L[1], tc.IdxAdd(x.L[1], x.L[2])
 	fx.frameCheckRange(st, pc, sl.Elem(), x.L[0], lo, hi)
+	leaves := tc.Layout(sl.Elem()).Leaves
+	oldArrs := make([]*Term, len(leaves))
+	for i, lf := range leaves {
+		oldArrs[i] = Select(fx.Heap(st, arrHeapName(sl.Elem(), lf), lf), x.L[0])
+	}
 	fx.havocFrame(st, pc, []FrameItem{{Kind: PElem, Root: sl.Elem(), Arr: x.L[0], Lo: lo, Hi: hi, Src: "sort." + name}}, "sort")
+	// sorting permutes: every element of the old contents occurs in the new contents, at the
+	// position an uninterpreted function names
+	sortPermN++
+	pf := DeclareUF(fmt.Sprintf("sortperm_%d", sortPermN), []*Sort{tc.IdxSort()}, tc.IdxSort())
+	k := BoundVar("k", tc.IdxSort())
+	pk := pf.App(k)
+	conj := []*Term{tc.IdxLe(tc.IdxNum(0), pk), tc.IdxLt(pk, x.L[2])}
+	var firstOld *Term
+	for i, lf := range leaves {
+		newArr := Select(fx.Heap(st, arrHeapName(sl.Elem(), lf), lf), x.L[0])
+		o := Select(oldArrs[i], tc.IdxAdd(x.L[1], k))
+		if firstOld == nil {
+			firstOld = o
+		}
+		conj = append(conj, Eq(Select(newArr, tc.IdxAdd(x.L[1], pk)), o))
+	}
+	body := Implies(And(tc.IdxLe(tc.IdxNum(0), k), tc.IdxLt(k, x.L[2])), And(conj...))
+	pats := [][]*Term{{pk}}
+	if firstOld != nil {
+		pats = append(pats, []*Term{firstOld})
+	}
+	fx.assume(Implies(pc, Forall([]*Term{k}, body, pats...)))
 	return Value{T: rt}
 }
+
+var sortPermN int
 
 // specTypeName renders a type written as a specification expression: T, pkg.T, *T.
 func specTypeName(e SpecExpr) string {
@@ -1416,4 +1489,47 @@ func specTypeName(e SpecExpr) string {
 		}
 	}
 	return ""
+}
+
+// sortSearch is the built-in model of sort.Search(n, f) for a closure f known at the call: the
+// result c satisfies 0 <= c <= n, f(c) when c < n, and !f(c-1) when c > 0 (the invariant of the
+// binary search, which holds whether or not f is monotone). f is evaluated on a copy of the state
+// (its effects on memory, if any, are not carried over: it must be a pure predicate, which the
+// frame check of the enclosing function enforces for existing memory); its safety obligations are
+// generated for an arbitrary index in [0, n).
+func (fx *FnCtx) sortSearch(st *State, pc *Term, call *ssa.CallCommon, rt types.Type) Value {
+	fx.V.usedTrusted["sort.Search (built-in model)"] = true
+	tc := fx.tc
+	fv := fx.val(call.Args[1])
+	if fv.Fn == nil {
+		fx.fail("sort.Search: the predicate is not a function literal known at the call (outside the model)")
+	}
+	intT := types.Typ[types.Int]
+	n := fx.toIdx(fx.val(call.Args[0]), intT)
+	evalAt := func(i Value, cond *Term) *Term {
+		st2 := st.Clone()
+		r := fx.callFunction(st2, And(pc, cond), fv.Fn.Fn, fv.Fn.Bindings, []Value{i}, types.Typ[types.Bool])
+		return r.L[0]
+	}
+	g, gf := tc.FreshValue(intT, "searchany")
+	for _, f := range gf {
+		fx.assume(f)
+	}
+	gi := fx.toIdx(g, intT)
+	evalAt(g, And(tc.IdxLe(tc.IdxNum(0), gi), tc.IdxLt(gi, n)))
+	c, cf := tc.FreshValue(intT, "search")
+	for _, f := range cf {
+		fx.assume(f)
+	}
+	ci := fx.toIdx(c, intT)
+	fx.assume(Implies(pc, And(tc.IdxLe(tc.IdxNum(0), ci), tc.IdxLe(ci, n))))
+	inRange := tc.IdxLt(ci, n)
+	r1 := evalAt(c, inRange)
+	fx.assume(Implies(And(pc, inRange), r1))
+	pos := tc.IdxLt(tc.IdxNum(0), ci)
+	prev := Value{T: intT, L: []*Term{tc.IdxSub(ci, tc.IdxNum(1))}}
+	r2 := evalAt(prev, pos)
+	fx.assume(Implies(And(pc, pos), Not(r2)))
+	c.T = rt
+	return c
 }
